@@ -340,9 +340,29 @@ def r_c08_smallest_layout_single_record(s4, repo, scratch):
             'cmd': '%s --color never --tz-offset +00:00 %s' % (s4, inp), 'expected': want, 'observed': got or '<nothing>', 'failed': got != want}
 
 
+def r_c04_month_abbreviation_with_dot(s4, repo, scratch):
+    """RFC 2822-like lines with an abbreviated month followed by a dot: every month, the instant written"""
+    bad = None
+    first = None
+    names = ['Jan', 'Feb', 'Mar', 'Apr', 'May', 'Jun', 'Jul', 'Aug', 'Sep', 'Oct', 'Nov', 'Dec']
+    for i, nm in enumerate(names):
+        inp = os.path.join(scratch, 'c04_mon_%02d.log' % (i + 1))
+        open(inp, 'w').write('Sun, 03 %s. 2000 00:00:00 +0000 msg one\nSun, 03 %s. 2000 00:00:03 +0000 msg two\n' % (nm, nm))
+        first = first or inp
+        rc, out, err = run_s4(s4, ['--color', 'never', '-u', '-d', '%Y%m%dT%H%M%S', inp])
+        got = [l.split(b':', 1)[0].decode('ascii', 'replace') for l in out.split(b'\n') if l]
+        want = ['2000%02d03T000000' % (i + 1), '2000%02d03T000003' % (i + 1)]
+        if rc != 0 or got != want:
+            tail = [l for l in err.decode('utf-8', 'replace').split('\n') if 'panicked' in l or 'unexpected month' in l][:2]
+            bad = bad or (inp, rc, got, ' / '.join(tail))
+    return {'name': 'C04.month_abbreviation_with_dot', 'input': bad[0] if bad else first, 'how_made': 'twelve files "Sun, 03 <Mon>. 2000 00:00:0x +0000 msg"',
+            'cmd': '%s --color never -u -d %%Y%%m%%dT%%H%%M%%S <file>' % s4, 'expected': 'exit 0 and the written instant before each line',
+            'observed': 'all as written' if not bad else 'file %s: exit %d, printed %s; %s' % bad, 'failed': bool(bad)}
+
+
 RECIPES = {
     'C02': [r_c02_continuation_at_block_boundary, r_c02_mixed_notation_first_message],
-    'C04': [r_c04_instants, r_c04_fractions],
+    'C04': [r_c04_instants, r_c04_fractions, r_c04_month_abbreviation_with_dot],
     'C10': [r_c03_evtx_window],
     'C01': [r_c01_tie_order, r_c01_chronological, r_c01_submillisecond],
     'C06': [r_c01_tie_order, r_c01_chronological, r_c01_submillisecond],
